@@ -41,6 +41,7 @@ func PrepareEnv() *Env {
 // prepare copies the working tree and builds the real generator from it.
 func prepare() *env {
 	e := &env{scratch: drv.Scratch("enga")}
+	drv.UseGoCache(e.scratch)
 	e.repo = filepath.Join(e.scratch, "repo")
 	drv.CopyRepo(e.repo)
 	e.cli = filepath.Join(e.scratch, "kessoku")
